@@ -71,6 +71,7 @@ def run(rep):
         cases = json.load(open(os.path.join(src, "cases.json")))
         pkgs = [c["pkg"] for c in cases]
         kind_of = {c["pkg"]: c["kind"] for c in cases}
+        hist_of = {c["pkg"]: c["history"] for c in cases if c.get("history")}
         work = os.path.join(sd, "work")
         os.makedirs(work)
 
@@ -324,6 +325,55 @@ def run(rep):
                          {"cmd": "goderive ./htop; <add fields Count, Note to hbase.Item>; goderive ./htop", "baseline_cmd": "<add fields>; goderive ./htop",
                           "files": {q: runs.read_tree(os.path.join(src, q)) for q in ("hbase", "htop")}})
             rep.cov["history_runs"] = 5
+
+        # ---- 6b. histories of one package: generate for an earlier version of the sources, put the current sources in place,
+        # generate again: the result (exit status, bytes) must be that of a generation from scratch over the current sources
+        def hist_run(p, with_history):
+            root = fresh(src, work, "h-%s-%d" % (p, with_history))
+            pdir = os.path.join(root, p)
+            first = None
+            if with_history:
+                cur = {}
+                for fn, old in hist_of[p].items():
+                    fp = os.path.join(pdir, fn)
+                    cur[fn] = open(fp).read() if os.path.exists(fp) else None
+                    if old == "":
+                        if os.path.exists(fp):
+                            os.remove(fp)
+                    else:
+                        open(fp, "w").write(old)
+                first = runs.goderive(binp, root, ["./" + p], timeout=TIMEOUT * 2)
+                for fn, txt in cur.items():
+                    fp = os.path.join(pdir, fn)
+                    if txt is None:
+                        if os.path.exists(fp):
+                            os.remove(fp)
+                    else:
+                        open(fp, "w").write(txt)
+            r = runs.goderive(binp, root, ["./" + p], timeout=TIMEOUT * 2)
+            r["first"] = first
+            r["sha"] = shas(root, pkgs)
+            r["derived"] = open(os.path.join(pdir, DERIVED), errors="replace").read() if r["sha"][p] != "absent" else ""
+            shutil.rmtree(root, ignore_errors=True)
+            return r
+
+        hjobs = [(p, w) for p in sorted(hist_of) for w in (0, 1)]
+        hres = dict(zip(hjobs, runs.par(lambda j: hist_run(*j), hjobs)))
+        evaluations += len(hjobs) + len(hist_of)
+        for p in sorted(hist_of):
+            a, b = hres[(p, 0)], hres[(p, 1)]
+            comparisons += 1
+            distinct.add((p, "history"))
+            if b["first"] is not None and b["first"]["rc"] != 0:
+                rep.notes.append("history step of %s fails on the earlier version: %s" % (p, b["first"]["out"][-200:]))
+            if (a["rc"], a["sha"][p]) != (b["rc"], b["sha"][p]):
+                flag("C08/bytes-differ:history-of-the-package",
+                     "package %s: generated from scratch `goderive ./%s` exits %s and leaves %s; after an earlier version of the sources was generated for, the same "
+                     "command over the same current sources exits %s and leaves %s%s" % (
+                         p, p, a["rc"], a["sha"][p][:12], b["rc"], b["sha"][p][:12], (": " + norm_err(b["out"])[-200:]) if b["rc"] != 0 else ""),
+                     {"cmd": "<earlier sources>; goderive ./%s; <current sources>; goderive ./%s" % (p, p), "baseline_cmd": "goderive ./" + p, "package": p,
+                      "files": runs.read_tree(os.path.join(src, p)), "earlier_files": hist_of[p], "stderr": b["out"][-600:]})
+        rep.cov["package_history_runs"] = len(hjobs)
 
         # ---- 7. -autoname: what it does to a package (generated bytes AND rewritten sources) must not depend on the other
         # packages named in the invocation
